@@ -321,25 +321,33 @@ func vcHas(list []string, key string) bool {
 	return false
 }
 
-// vcCheckBlob checks that key k, as served by s, matches the model blob mb
+// vcInternalMatches, when set (whitebox.go), compares what the public API
+// cannot show: the reserved size of a restored incomplete blob and the eviction
+// ban flag. vcInternalAccounting checks size == sum of listed sizes.
+var (
+	vcInternalMatches    func(s *Store, k int, mb *vcBlob) bool
+	vcInternalAccounting func(s *Store)
+)
+
+// vcMatches checks that key k, as served by s, matches the model blob mb
 // (which is present).
 func vcMatches(s *Store, k int, mb *vcBlob, reboot bool) bool {
 	key := vcKeys[k]
-	b, ok := s.impl.blobs[key]
+	ok, _ := s.Has(key)
 	if !mb.complete && !reboot {
 		return !ok // incomplete blobs are dropped when so configured
 	}
-	if !ok || b.complete != mb.complete {
+	_, isComplete := s.ScopeComplete().Has(key)
+	if !ok || isComplete != mb.complete {
 		return false
 	}
-
+	if vcInternalMatches != nil && !vcInternalMatches(s, k, mb) {
+		return false
+	}
 	if !mb.complete {
-		// "restored with their reserved size": nothing more is demanded of an
-		// incomplete blob.
-		return b.size == mb.size
-	}
-	if b.evictionBanned != mb.banned {
-		return false
+		// "restored with their reserved size" (white-box): nothing more is
+		// demanded of an incomplete blob.
+		return true
 	}
 	f, err := s.Open(key)
 	if err != nil {
@@ -445,11 +453,9 @@ func (sc *vcScenario) check() {
 		}
 	}
 	// accounting of the rebooted store is consistent with what it lists
-	var sum uint64
-	for _, b := range s.impl.blobs {
-		sum += b.size
+	if vcInternalAccounting != nil {
+		vcInternalAccounting(s)
 	}
-	verif.Assert("rebooted-size-is-sum-of-listed", s.impl.size == sum)
 	// every key can be created and completed again
 	for k := range vcKeys {
 		key := vcKeys[k]
